@@ -249,7 +249,26 @@ func (c *rxCtx) step(pc int, pos int) *rxState {
 			cond = st.And(cond, st.Or(st.Eq(c.v.length, pp), st.Eq(c.v.at(pp), st.Int('\n'))))
 		}
 		if e&(syntax.EmptyWordBoundary|syntax.EmptyNoWordBoundary) != 0 {
-			c.in.fail("regexp word boundary unsupported")
+			// ASCII word characters [0-9A-Za-z_]; outside the subject counts as a non-word character
+			isWord := func(b *sym.Term) *sym.Term {
+				in := func(lo, hi rune) *sym.Term { return st.And(st.Le(st.Int(int64(lo)), b), st.Le(b, st.Int(int64(hi)))) }
+				return st.Or(in('0', '9'), in('A', 'Z'), in('a', 'z'), st.Eq(b, st.Int('_')))
+			}
+			prev := st.False
+			if pos > 0 {
+				prev = isWord(c.v.at(st.Int(int64(pos - 1))))
+			}
+			cur := st.False
+			if pos < c.n {
+				cur = st.And(st.Lt(pp, c.v.length), isWord(c.v.at(pp)))
+			}
+			boundary := st.Not(st.Eq(prev, cur))
+			if e&syntax.EmptyWordBoundary != 0 {
+				cond = st.And(cond, boundary)
+			}
+			if e&syntax.EmptyNoWordBoundary != 0 {
+				cond = st.And(cond, st.Not(boundary))
+			}
 		}
 		if cond.IsFalse() {
 			return c.fail
